@@ -26,6 +26,7 @@ EXPECT = {
     "New and Append refuse": ["C02"],
     "evaluation failed cannot be saved": ["C18"],
     "integer literals are base 10": ["C14"],
+    "negative integer literals": ["C14"],
 }
 def sh(cmd, **kw):
     return subprocess.run(cmd, shell=True, capture_output=True, text=True, **kw)
